@@ -212,22 +212,28 @@ def run(ck, F, tier):
     ck.inst("B4", "channel:normal(0,sigma)", ok, cb.span, "distr = Normal::new(0.0, noise_sigma).unwrap(): %r" % (cv[2].get("distr") if isinstance(cv, tuple) else cv,))
     SAMPLE = "rand_distr::Distribution::sample"
     fb = F.body("<f64 as %sChannelType>::noise" % CH)
-    tf = Tracer(F, "NONE", mode="real")
+    tf = Tracer(F, "NONE", mode="real", inline=lambda p: F.private_helper(p, CH))
     env = {}
     for p, nm in zip(fb.params, ("ch", "rng")):
         tf.bind(p, var(nm), env)
     fv = tf.eval(fb.value, env)
     ck.inst("B4", "noise:f64", fv == app(SAMPLE, var("ch.distr"), var("rng")), fb.span, "real noise = one sample of the channel's distribution: %r" % (fv,))
     xb = F.body("<num_complex::Complex<f64> as %sChannelType>::noise" % CH)
-    nsamp = len(calls_to(xb.value, re.escape(SAMPLE)))
-    tf = Tracer(F, "NONE", mode="real")
+    # (a private helper drawing one sample is expanded; the draws are counted as traced calls, not as source occurrences)
+    tf = Tracer(F, re.escape(SAMPLE), mode="real", inline=lambda p: F.private_helper(p, CH))
     env = {}
     for p, nm in zip(xb.params, ("ch", "rng")):
         tf.bind(p, var(nm), env)
     xv = tf.eval(xb.value, env)
+    nsamp = len([e for e in tf.events if e.callee == SAMPLE and not e.loops])
     xa = single_atom(xv) if isinstance(xv, Poly) else None
-    ok = xa is not None and atom_fn(xa) == "num_complex::Complex::<T>::new" and nsamp == 2 and \
-        all(single_atom(a) is not None and atom_fn(single_atom(a)) == SAMPLE and "ch.distr" in repr(a) for a in atom_args(xa))
+    parts = None
+    if xa is not None and atom_fn(xa) == "num_complex::Complex::<T>::new":
+        parts = list(atom_args(xa))
+    elif isinstance(xv, tuple) and len(xv) == 3 and xv[0] == "struct" and xv[1] == "Complex" and set(xv[2]) == {"re", "im"}:
+        parts = [xv[2]["re"], xv[2]["im"]]          # Complex { re, im } literal
+    ok = parts is not None and nsamp == 2 and \
+        all(isinstance(a, Poly) and single_atom(a) is not None and atom_fn(single_atom(a)) == SAMPLE and "ch.distr" in repr(a) for a in parts)
     ck.inst("B4", "noise:complex", ok, xb.span, "complex noise = Complex::new(sample, sample) with two separate draws (%d sample call sites)" % nsamp)
     ab = F.body("<%sAwgnChannel as %sChannel>::add_noise" % (CH, CH))
     ta = Tracer(F, "NONE", mode="real")
